@@ -207,7 +207,9 @@ func gen(seed uint64, tier string) Scenario {
 	for i := 0; i < ns; i++ {
 		st := StartCase{Who: []string{"server", "client"}[r.Intn(2)]}
 		goodMax := func() int { return r.Pick(0, 0, 1, 12, minMax, 100, 1000, 1471, 1472, 1472) }
-		badMax := func() int { return r.Pick(1473, 1473, 1474, 1480, 1500, 2048, 9000, 65507, 65536, r.Range(1473, 100000)) }
+		badMax := func() int {
+			return r.Pick(1473, 1473, 1474, 1480, 1500, 2048, 9000, 65507, 65536, r.Range(1473, 100000))
+		}
 		goodWQ := func() int { return r.Pick(0, 0, 1, 2, 4, 8, 16, 64, 256, 512, 1024, 4096, 1<<r.Range(0, 16)) }
 		badWQ := func() int {
 			return r.Pick(3, 5, 6, 7, 9, 10, 12, 15, 17, 24, 100, 255, 257, 1000, 1023, 1025, 65535, (1<<r.Range(2, 16))+r.Pick(-1, 1, 2, 3))
